@@ -132,6 +132,13 @@ func (a *acc) one(id string, fam string, mode int, src string, run bool, note st
 		}
 		return
 	}
+	if v.Reduced != "" && v.Reduced != src {
+		// the violation was established on this smaller input: that is the recorded case
+		if note == "" {
+			note = clip(src)
+		}
+		src, note = v.Reduced, "reduced from: "+note
+	}
 	f := a.byK[v.Key]
 	if f == nil {
 		f = &failRec{Key: v.Key, Clause: v.Clause, Case: mkCase(fam, mode, src, run, note), Detail: v.Detail, Size: len(src)}
@@ -855,6 +862,9 @@ func main() {
 	}
 	sort.Strings(rkeys)
 	for _, k := range rkeys {
+		if strings.HasPrefix(k, "hang@") || reps[k].Size <= 16 {
+			continue // already minimal (hang verdicts are established on the reduced input)
+		}
 		rshards = append(rshards, pool.Shard{Kind: "reduce", Arg: reduceShard{Key: k, Clause: reps[k].Clause, Case: reps[k].Case}})
 	}
 	if len(rshards) > 0 {
